@@ -12,3 +12,15 @@ Example ex_pruned : (length (exts ex_next 2 []), length (stages ex_next ex_crit 
 (* ... and the fronts coincide *)
 Example ex_fronts : front (pruned_vectors ex_next ex_valid ex_obj ex_crit 2) = [[2; 5]; [3; 3]; [5; 2]] /\ front (exhaustive_vectors ex_next ex_valid ex_obj 2) = [[2; 5]; [3; 3]; [5; 2]].
 Proof. vm_compute. split; reflexivity. Qed.
+(* the hypotheses of C08_monotone_terms_exact are satisfiable: two symbols with candidates 1, 2, objective vector = the assignment itself, criteria = the prefix *)
+Definition ex2_next (p : list Z) : list Z := if Nat.ltb (length p) 2 then [1; 2] else [].
+Example ex2_suffixes : forall j k p q a, (j + k = 2)%nat -> In p (exts ex2_next j []) -> In q (exts ex2_next j []) -> In a (exts ex2_next k p) ->
+  exists c, a = p ++ c /\ In (q ++ c) (exts ex2_next k q).
+Proof.
+  intros j k p q a _ Hp Hq Ha. apply exts_suffix; [intros x y E; unfold ex2_next; rewrite E; reflexivity| |exact Ha].
+  apply exts_length in Hp, Hq. cbn in Hp, Hq. lia.
+Qed.
+Example ex2_monotone : forall p q c : list Z, length p = length q -> vle ((fun x => x) q) ((fun x => x) p) = true ->
+  vle ((fun x => x) (q ++ c)) ((fun x => x) (p ++ c)) = true /\ ((fun _ : list Z => true) (p ++ c) = true -> (fun _ : list Z => true) (q ++ c) = true).
+Proof. intros p q c _ H. split; [apply vle_app_same, H|reflexivity]. Qed.
+Example ex2_pruned : (length (exts ex2_next 2 []), length (stages ex2_next (fun x => x) 2 [[]])) = (4%nat, 1%nat). Proof. vm_compute. reflexivity. Qed.
